@@ -154,6 +154,23 @@ def h_rows(ctx):
     d = os.path.join(H.scratch(), "c02rows")
     os.makedirs(d, exist_ok=True)
     pa = gen.text_file(A, os.path.join(d, "A.txt"), row_order=order)
+    if ctx.params.get("jitter"):
+        # rows of one station carry latitudes / longitudes that differ in the sixth decimal (merged from two sources; below the
+        # reader's 'conflicting information' threshold): they are still rows of that station, in any row order
+        lines = open(pa).read().split("\n")
+        hdr = [i for i, ln in enumerate(lines) if ln and not ln.startswith("#")][0]
+        cols = lines[hdr].split()
+        ilat, ilon = cols.index("lat"), cols.index("lon")
+        n_ = 0
+        for i in range(hdr + 1, len(lines)):
+            w = lines[i].split()
+            if len(w) == len(cols):
+                if n_ % 2:
+                    w[ilat] = "%.6f" % (float(w[ilat]) + 1e-6)
+                    w[ilon] = "%.6f" % (float(w[ilon]) - 1e-6)
+                n_ += 1
+                lines[i] = " ".join(w)
+        open(pa, "w").write("\n".join(lines))
     if not os.path.exists(os.path.join(d, "B.txt")):
         gen.text_file(B, os.path.join(d, "B.txt"), row_order=B.positions()[::-1])
     pb = os.path.join(d, "B.txt")
@@ -447,7 +464,7 @@ def plan(tier):
          ("dims-nc", h_dims, {"via": "nc", "options": ["none", "tods"] if not q else ["tods"], "only_one": q}),
          ("dims-borrowed-obs", h_dims, {"via": "mem", "options": ["none"], "b_no_obs": True}),
          ("dims-near", h_dims, {"via": "mem", "options": ["none", "times"], "near": True}),
-         ("rows8", h_rows, {"sparse": False}), ("rows6-sparse", h_rows, {"sparse": True}),
+         ("rows8", h_rows, {"sparse": False}), ("rows6-sparse", h_rows, {"sparse": True}), ("rows6-jitter", h_rows, {"sparse": True, "jitter": True}),
          ("repeat-mem", h_repeat, {"via": "mem"}), ("repeat-nc", h_repeat, {"via": "nc"}),
          ("order2", h_order, {"n": 2}), ("order3", h_order, {"n": 3}),
          ("columns", h_columns, {}),
